@@ -4,7 +4,9 @@ import re
 WORDS = ['alpha', 'beta', 'gamma', 'Ünï', '日本', 'x', 'rate', 'v1.2', 'a-b', 'c_d', 'IGN', 'RM', 'skip']
 SEPS = ['\n', '\n', '\n', '\r\n', '\r', '\x0b', '\x0c', ' ', '\x85', '\x1c']
 PATTERNS = [r'\d+', r'[a-c]+\d', r'v\d+\.\d+', r'0x[0-9a-f]+', r'\d{2}:\d{2}', r'id=\w+',
-            r'^L\d+ .*$', r'^.*rate.*$']
+            r'^L\d+ .*$', r'^.*rate.*$',
+            # shapes of expression: a top-level alternation of groups, nested groups, a group that is the whole pattern
+            r'(alpha)|(beta)', r'(\d+)|(x)', r'(id=(\w)+)', r'(0x)?[0-9a-f]{2,}']
 HALF_PATTERNS = [r'^L\d+', r'\d+$', r'\d*']
 SUBSTRS = ['IGN', 'skip', 'Ünï']
 REMOVES = ['RM', 'gamma', '#']
